@@ -22,6 +22,7 @@ partial def tyOfMich : Mich → Option Ty
   | .prim "never" [] _ => some .never
   | .prim "key_hash" [] _ => some .keyHash
   | .prim "key" [] _ => some .key
+  | .prim "signature" [] _ => some .signature
   | .prim "operation" [] _ => some .operation
   | .prim "contract" [a] _ => (tyOfMich a).map .contract
   | .prim "option" [a] _ => (tyOfMich a).map .option
@@ -32,6 +33,7 @@ partial def tyOfMich : Mich → Option Ty
   | .prim "lambda" [a, b] _ => do pure (.lambda (← tyOfMich a) (← tyOfMich b))
   | .prim "map" [a, b] _ => do pure (.map (← tyOfMich a) (← tyOfMich b))
   | .prim "set" [a] _ => (tyOfMich a).map .set
+  | .prim "big_map" [a, b] _ => do pure (.bigMap (← tyOfMich a) (← tyOfMich b))
   | _ => none
 
 partial def tyToMich : Ty → Mich
@@ -48,6 +50,7 @@ partial def tyToMich : Ty → Mich
   | .never => .prim "never" [] []
   | .keyHash => .prim "key_hash" [] []
   | .key => .prim "key" [] []
+  | .signature => .prim "signature" [] []
   | .operation => .prim "operation" [] []
   | .contract a => .prim "contract" [tyToMich a] []
   | .option a => .prim "option" [tyToMich a] []
@@ -57,6 +60,7 @@ partial def tyToMich : Ty → Mich
   | .lambda a b => .prim "lambda" [tyToMich a, tyToMich b] []
   | .map a b => .prim "map" [tyToMich a, tyToMich b] []
   | .set a => .prim "set" [tyToMich a] []
+  | .bigMap a b => .prim "big_map" [tyToMich a, tyToMich b] []
 
 /-- the entrypoint / tag a field annotation names (`%name`; none: `dflt`) -/
 def annotName (dflt : String) : List String → List Nat
@@ -82,6 +86,7 @@ mutual
     | .chainId, .str s => some (.atom .chainId (codes s))
     | .keyHash, .str s => some (.atom .keyHash (codes s))
     | .key, .str s => some (.atom .key (codes s))
+    | .signature, .str s => some (.atom .signature (codes s))
     | .option _, .prim "None" [] _ => none   -- needs the type: handled below
     | .option t, .prim "Some" [x] _ => (valOfMich t x).map .some
     | .or l r, .prim "Left" [x] _ => (valOfMich l x).map fun v => .left v r
@@ -152,6 +157,7 @@ mutual
     | .prim "CONS" [] _ => some .CONS
     | .prim "SIZE" [] _ => some .SIZE
     | .prim "EMPTY_MAP" [k, v] _ => do pure (.EMPTY_MAP (← tyOfMich k) (← tyOfMich v))
+    | .prim "EMPTY_BIG_MAP" [k, v] _ => do pure (.EMPTY_BIG_MAP (← tyOfMich k) (← tyOfMich v))
     | .prim "EMPTY_SET" [t] _ => (tyOfMich t).map .EMPTY_SET
     | .prim "MEM" [] _ => some .MEM
     | .prim "GET" [] _ => some .GET
@@ -209,6 +215,8 @@ mutual
     -- `SELF %ep` arrives elaborated: the harness writes the type of that entrypoint of the parameter as an argument
     | .prim "SELF" [t] an => (tyOfMich t).map fun t => .SELF (annotName "default" an) t
     | .prim "PACK" [] _ => some .PACK
+    | .prim "CHECK_SIGNATURE" [] _ => some .CHECK_SIGNATURE
+    | .prim "UNPACK" [t] _ => (tyOfMich t).map .UNPACK
     | .prim "TRANSFER_TOKENS" [] _ => some .TRANSFER_TOKENS
     | .prim "SET_DELEGATE" [] _ => some .SET_DELEGATE
     | .prim "EMIT" [t] an => (tyOfMich t).map fun t => .EMIT (annotName "" an) t
@@ -232,6 +240,9 @@ mutual
     | .list _ xs => .seq (xs.map valToMich)
     | .set _ xs => .seq (xs.map valToMich)
     | .map _ _ xs => .seq (xs.map fun e => match e with
+        | .pair k v => .prim "Elt" [valToMich k, valToMich v] []
+        | o => valToMich o)
+    | .bigMap _ _ xs => .seq (xs.map fun e => match e with
         | .pair k v => .prim "Elt" [valToMich k, valToMich v] []
         | o => valToMich o)
     | .lam _ _ body => instrToMich body
@@ -265,6 +276,7 @@ mutual
     | .RIGHT t => .prim "RIGHT" [tyToMich t] [] | .NIL t => .prim "NIL" [tyToMich t] []
     | .CONS => .prim "CONS" [] [] | .SIZE => .prim "SIZE" [] []
     | .EMPTY_MAP k v => .prim "EMPTY_MAP" [tyToMich k, tyToMich v] []
+    | .EMPTY_BIG_MAP k v => .prim "EMPTY_BIG_MAP" [tyToMich k, tyToMich v] []
     | .EMPTY_SET t => .prim "EMPTY_SET" [tyToMich t] []
     | .MEM => .prim "MEM" [] [] | .GET => .prim "GET" [] [] | .UPDATE => .prim "UPDATE" [] []
     | .GET_AND_UPDATE => .prim "GET_AND_UPDATE" [] []
@@ -289,6 +301,8 @@ mutual
     | .CONTRACT t ep => .prim "CONTRACT" [tyToMich t] ["%" ++ uncodes ep]
     | .SELF ep t => .prim "SELF" [tyToMich t] ["%" ++ uncodes ep]
     | .PACK => .prim "PACK" [] []
+    | .CHECK_SIGNATURE => .prim "CHECK_SIGNATURE" [] []
+    | .UNPACK t => .prim "UNPACK" [tyToMich t] []
     | .TRANSFER_TOKENS => .prim "TRANSFER_TOKENS" [] [] | .SET_DELEGATE => .prim "SET_DELEGATE" [] []
     | .EMIT tag t => .prim "EMIT" [tyToMich t] (if tag.isEmpty then [] else ["%" ++ uncodes tag])
 end
